@@ -3,10 +3,12 @@ package drivers
 import (
 	"bytes"
 	"encoding/json"
+	"fmt"
 	"io"
 	"math/rand"
 	"runtime"
 	"runtime/debug"
+	"sync"
 	"time"
 
 	"verifharness/abs"
@@ -80,6 +82,8 @@ type robustStruct struct {
 		O string `avp:"V-OctetString"`
 	} `avp:"V-Grouped"`
 	Raw []*diam.AVP `avp:"V-Unsigned64"`
+	Is  []int       `avp:"V-Integer32"`
+	Ss  []string    `avp:"V-UTF8String"`
 }
 
 func hexHead(b []byte) string {
@@ -220,6 +224,39 @@ func nested(depth int) []byte {
 	return msgBytes(inner, abs.VCmd, abs.VApp, 0x80)
 }
 
+func runFlood(dp *dict.Parser, out *Out) {
+	const per = 40000
+	var wg sync.WaitGroup
+	total := 0
+	var ms0 runtime.MemStats
+	runtime.GC()
+	runtime.ReadMemStats(&ms0)
+	for g := 0; g < 4; g++ {
+		wg.Add(1)
+		total += per * 40
+		go func(g int) {
+			defer wg.Done()
+			for i := 0; i < per; i++ {
+				code := uint32(20000 + g*per + i)
+				b := msgBytes(append(rawAVP(code, 0x80, uint32(5000+i%977), 12+4, []byte{1, 2, 3, 4}, true), rawAVP(code+1, 0, 0, 12, []byte{9, 9, 9, 9}, true)...), abs.VCmd, abs.VApp, 0x80)
+				diam.ReadMessage(bytes.NewReader(b), dp)
+			}
+		}(g)
+	}
+	wg.Wait()
+	debug.SetGCPercent(100)
+	runtime.GC()
+	var ms1 runtime.MemStats
+	runtime.ReadMemStats(&ms1)
+	kept := int64(ms1.HeapAlloc) - int64(ms0.HeapAlloc)
+	l := robustLine{Ev: "robust", ID: 1, N: total, Recipe: "unknown-avp-flood", Entry: "ReadMessage", Post: []postOp{}, Outcome: "ok"}
+	if kept > int64(total)/2+(4<<20) {
+		l.Outcome = "retained"
+		l.Detail = fmt.Sprintf("%d KiB still reachable after decoding %d KiB of messages that were all dropped", kept>>10, total>>10)
+	}
+	out.Emit(l)
+}
+
 // nestedMax: the deepest nest a message can hold - a 16 MiB message of grouped AVP headers only,
 // built in linear time (level d starts at offset 8*d and spans the rest).
 func nestedMax() []byte {
@@ -252,6 +289,28 @@ func Robust(a Args) error {
 			debug.SetGCPercent(-1)
 		}
 	}
+	typedInputs := func() {
+		// every typed AVP of the verification dictionary with payload lengths 0..20 (whatever the type
+		// expects), alone and in front of another AVP; and a well-typed AVP followed by the same code
+		// under a vendor nobody defines (collected into the same slice field by Unmarshal)
+		for code := uint32(9001); code <= 9018; code++ {
+			for n := 0; n <= 20; n++ {
+				pay := bytes.Repeat([]byte{0x31}, n)
+				if n == 16 {
+					pay[0] = 0x20 // not an IPv4-mapped address
+				}
+				one := rawAVP(code, 0x40, 0, 8+n, pay, true)
+				id++
+				runRobust(id, msgBytes(one, abs.VCmd, abs.VApp, 0x80), "typed-length", vp, out, slow)
+				id++
+				runRobust(id, msgBytes(append(one, rawAVP(9001, 0x40, 0, 12, []byte{0, 0, 0, 7}, true)...), abs.VCmd, abs.VApp, 0x80), "typed-length", vp, out, slow)
+			}
+			good := rawAVP(code, 0x40, 0, 12, []byte{0, 0, 0, 5}, true)
+			odd := rawAVP(code, 0xC0, 4242, 12+7, []byte{1, 2, 3, 4, 5, 6, 7}, true)
+			id++
+			runRobust(id, msgBytes(append(good, odd...), abs.VCmd, abs.VApp, 0x80), "typed-length", vp, out, slow)
+		}
+	}
 	if a.Extra["one"] != "" { // a single heavy case, run in a child process by the driver
 		switch a.Extra["one"] {
 		case "nest":
@@ -259,6 +318,10 @@ func Robust(a Args) error {
 			// beyond a few thousand levels only decoding is exercised: rendering and re-serialising such
 			// nests is quadratic (a recorded finding) and would exhaust the machine
 			runRobust(1, nested(depth), "nested-groups-depth", vp, out, 600000, depth > 2048)
+		case "flood":
+			// AVPs nobody defines, with ever different codes and vendors, decoded by four goroutines at once:
+			// nothing the library remembers about them may be shared without a lock or kept for good
+			runFlood(vp, out)
 		case "maxnest":
 			// "stack bounded by a small multiple of the bytes supplied", enforced by the runtime itself for the
 			// largest input there is: 16 x 16 MiB (the unchanged tree needs about 4 MB for this input)
@@ -283,6 +346,7 @@ func Robust(a Args) error {
 			return err
 		}
 	}
+	typedInputs()
 	r := rand.New(rand.NewSource(a.Seed))
 	// lengths claimed but not supplied
 	for _, claim := range []int{20, 21, 24, 1043, 1044, 1045, 4096, 65536, 1 << 20, 16777215} {
